@@ -20,6 +20,8 @@ type World struct {
 	Tag    func() string    // optional per-invocation tag appended to the function id in the log
 	// Memo marks function ids whose *body* memoizes its first result (the reference
 	// model of FuncOnce: an ordinary function that runs its computation once).
+	// BareUnsat: UnsatErr functions return the *ErrArgumentUnsatisfied itself, not a wrapper
+	BareUnsat bool
 	// Quiet: bodies keep no shared harness state (free-running race pass)
 	Quiet     bool
 	Memo      map[string]bool
@@ -105,6 +107,8 @@ func mkVal(t int, prov string) reflect.Value {
 		v := reflect.New(carrier[t-TP0])
 		v.Elem().Field(0).SetString(prov)
 		return v
+	case TE:
+		return reflect.ValueOf(&myErr{M: prov})
 	}
 	v := reflect.New(carrier[t]).Elem()
 	v.Field(0).SetString(prov)
@@ -133,7 +137,11 @@ func (w *World) unsatErr(id string) error {
 	if e, ok := w.Errs[id]; ok {
 		return e
 	}
-	e := fmt.Errorf("delegate failed: %w", &am.ErrArgumentUnsatisfied{Func: w.Funcs[id], Args: []*am.Value{{Name: "inner", Type: typeOf(4)}}})
+	inner := &am.ErrArgumentUnsatisfied{Func: w.Funcs[id], Args: []*am.Value{{Name: "inner", Type: typeOf(4)}}}
+	var e error = inner // dynamic type exactly *ErrArgumentUnsatisfied (a converter returning another call's Err())
+	if !w.BareUnsat {
+		e = fmt.Errorf("delegate failed: %w", inner)
+	}
 	w.Errs[id] = e
 	return e
 }
